@@ -7,7 +7,7 @@
 use super::spec::*;
 use crate::{Map, Set};
 
-pub const MAXN: usize = 5;
+pub const MAXN: usize = 7;
 
 fn twin<const N: usize>(len: usize) -> (Map<u8, u8, N>, Map<u8, u8, N>) {
     let a: Map<u8, u8, N> = any_map_len(len);
